@@ -306,7 +306,7 @@ Print Assumptions c08_violations_nil_iff.
    stamped keys and crash of every recorded run *)
 Theorem c08_mismatches_nil_iff : forall l : list case,
   mismatches l = [] <->
-  forall c, In c l -> case_model c = case_observed c /\ case_honest_proof c = true.
+  forall c, In c l -> case_model c = case_observed c /\ case_honest_proof c = true /\ extra_ok c = true.
 Proof. exact mismatches_nil_iff. Qed.
 Print Assumptions c08_mismatches_nil_iff.
 
@@ -422,3 +422,69 @@ Theorem c08_each_check_independent_f09_repaired :
     verify fx Ed25519 0 0 (Some 2) [RawOne c] <> Accept.
 Proof. exact each_check_independent_f09_repaired. Qed.
 Print Assumptions c08_each_check_independent_f09_repaired.
+
+(* --- several outgoing dials of one host ------------------------------------------ *)
+
+(* whatever other dials the host starts, and whatever arrives on them, between the
+   start of dial [id] and the arrival of its server certificate: that certificate is
+   judged with the expected key and the nonce of dial [id] *)
+Theorem c08_dial_verifier_private : forall fx s st id e n evs h,
+  dial_lookup id (h_dials st) = Some (e, n) ->
+  (forall ev, In ev evs -> ~ restarts id ev) ->
+  snd (host_step false fx s (host_run false fx s st evs) (HCert id h)) =
+  Some (tls_handshake fx s 0 n (Some e) h).
+Proof. exact dial_verifier_private. Qed.
+Print Assumptions c08_dial_verifier_private.
+
+(* a dial accepts only a certificate proving ITS intended key over ITS nonce *)
+Theorem c08_dial_accepts_only_own_proof : forall fx s st id e n evs h,
+  fix_f09 fx = true ->
+  dial_lookup id (h_dials st) = Some (e, n) ->
+  (forall ev, In ev evs -> ~ restarts id ev) ->
+  snd (host_step false fx s (host_run false fx s st evs) (HCert id h)) = Some Accept ->
+  exists c tk, h = Hello [RawOne c] (c_tlskey c) /\ key_of_cn s (c_cn c) = Some e /\
+               c_sig c = Some (SigBy e n (c_cn c) tk).
+Proof. exact dial_accepts_only_own_proof. Qed.
+Print Assumptions c08_dial_accepts_only_own_proof.
+
+Example c08_dial_accepts_only_own_proof_nonvacuous :
+  snd (host_step false (mkfixes true false true true) Ed25519
+         (host_run false (mkfixes true false true true) Ed25519 host0
+                   [HStart 0 1 0; HStart 1 2 4; HCert 1 (Hello [] 0)])
+         (HCert 0 (Hello [RawOne (mkcert (pub_to_cn 1) [URI true true (pub_to_cn 1)]
+                                        (Some (SigBy 1 0 (pub_to_cn 1) None)) 0 SgSelf (-300) 7200 true false)] 0)))
+  = Some Accept.
+Proof. exact dial_accepts_only_own_proof_nonvacuous. Qed.
+Print Assumptions c08_dial_accepts_only_own_proof_nonvacuous.
+
+(* the scenario the harness forces (second dial between ClientHello and server
+   certificate of the first): no influence on the observed dial; the honest
+   second link comes up *)
+Theorem c08_conc_dial_private : forall fx s e other h msgs,
+  conc_dial false fx s e other h msgs = link fx LTls (RDial e) s h IdMatch msgs.
+Proof. exact conc_dial_private. Qed.
+Print Assumptions c08_conc_dial_private.
+
+Theorem c08_conc_other_up_private : forall fx s e other tk, conc_other_up false fx s e other tk = true.
+Proof. exact conc_other_up_private. Qed.
+Print Assumptions c08_conc_other_up_private.
+
+(* NOT /repo (Corr.C08.code_dials_share_verifier = false): with one verifier slot
+   per host the peer on the first link is accepted with a proof made for the
+   second dial -- clauses 2, 3, 4 *)
+Theorem c08_shared_verifier_refuted :
+  let fx := mkfixes true false true true in
+  let c := mkcert (pub_to_cn 2) [URI true true (pub_to_cn 2)] (Some (SigBy 2 conc_nonce (pub_to_cn 2) None))
+                  0 SgSelf (-300) 7200 true false in
+  let h := Hello [RawOne c] 0 in
+  conc_dial false fx Ed25519 1 2 h 2 = mkout false 0 [] false /\
+  (let o := conc_dial true fx Ed25519 1 2 h 2 in
+   o = mkout true 2 [1; 1] false /\
+   prop_check LTls (RDial 1) Ed25519 [2; 3] h IdMatch (out_hs o) (out_disp o) (out_stamp o) (out_crash o)
+   = [2; 3; 4]).
+Proof. exact shared_verifier_refuted. Qed.
+Print Assumptions c08_shared_verifier_refuted.
+
+Example c08_current_code_dials_private : code_dials_share_verifier = false.
+Proof. exact eq_refl. Qed.
+Print Assumptions c08_current_code_dials_private.
